@@ -211,6 +211,21 @@ def call_builtin(E, name, args, kw, st, out, node):
         return [(st, VStr(z3.Function("py_chr", I, S)(args[0].t)))]
     if name == "open":
         return call_lib(E, "open", args, kw, st, out, node)
+    if name == "set" and args and isinstance(args[0], VCList) and all(isinstance(x, VStr) and z3.is_string_value(z3.simplify(x.t)) for x in args[0].items):
+        seen, out_ = set(), []
+        for x in args[0].items:
+            k_ = z3.simplify(x.t).as_string()
+            if k_ not in seen:
+                seen.add(k_); out_.append(x)
+        return [(st, VCList(out_))]
+    if name == "set" and args and isinstance(args[0], VList) and args[0].ety == INT:
+        # only len(set(xs)) is supported: the number of distinct values, axiomatised for the value 1 (T-enc)
+        xs = args[0]
+        d = z3.Int(fresh_name("distinct"))
+        q_ = z3.Int(fresh_name("dq"))
+        st.assume(z3.And(d >= 0, d <= xs.n, (d == 0) == (xs.n == 0)))
+        st.assume((d == 1) == z3.And(xs.n > 0, z3.ForAll([q_], z3.Implies(z3.And(0 <= q_, q_ < xs.n), z3.Select(xs.cols[0], q_) == z3.Select(xs.cols[0], 0)))))
+        return [(st, VList(d, [z3.Const(fresh_name("setelems"), z3.ArraySort(I, I))], INT))]
     if name in ("set", "tuple", "list", "dict"):
         if not args:
             return [(st, VCList([]) if name != "dict" else VDict())]
@@ -401,6 +416,12 @@ def str_method(E, r, m, args, kw, st, out, node):
             st.assume(z3.Length(r2) <= z3.Length(t))
             return [(st, VStr(r2))]
         raise OutOfSubset("strip(%s)" % a)
+    if m in ("rstrip", "lstrip") and not args:
+        if E._conc(t) is not None:
+            return [(st, VStr(getattr(E._conc(t), m)()))]
+        r_ = z3.Function("py_" + m, S, S)(t)
+        st.assume(z3.Length(r_) <= z3.Length(t))
+        return [(st, VStr(r_))]
     if m == "upper":
         return [(st, VStr(E.mk_upper(st, t)))]
     if m == "lower":
